@@ -469,8 +469,47 @@ example : plainChars [40, 60] = true ∧ gapOk [.ws [32], .comment (.block [32, 
 
 -- ` /* c */\n/**/` and `\t// x\n // y\n ` in front of `a`
 example : gapOk [.ws [32], .comment (.block [32, 99, 32]), .ws [10], .comment (.block [])] = true ∧
-    gapOk [.ws [9], .comment (.line [32, 120]), .ws [32], .comment (.line [32, 121]), .ws [32]] = true ∧
+    gapOk [.ws [9], .comment (.line [32, 120] 10), .ws [32], .comment (.line [32, 121] 10), .ws [32]] = true ∧
     startsToken [97] = true := by decide
+
+/-- A line comment ends at ANY vertical space (U+000A line feed, U+000B, U+000C, U+000D carriage return; CR LF is the
+comment closed by CR followed by the white space LF): whichever of them closes a comment, the lexer resumes at the
+same place, whatever follows (finding F71-line-comment-end, repaired by 20fca88: before it `1 // c\r+ 2` lost `+ 2`). -/
+theorem layout_line_comment_any_vertical_space (body : List Nat) (e1 e2 : Nat) (rest : List Nat)
+    (hb : noVertical body = true) (h1 : isVerticalSpace e1 = true) (h2 : isVerticalSpace e2 = true) :
+    skipGap (Comment.text (.line body e1) ++ rest) = skipGap (Comment.text (.line body e2) ++ rest) := by
+  rw [skipGap_comment (.line body e1) rest (by simp [Comment.ok, hb, h1]),
+    skipGap_comment (.line body e2) rest (by simp [Comment.ok, hb, h2])]
+
+-- `// c\r+ 2` and `// c\n+ 2`: both resume at `+ 2`
+example : noVertical [32, 99] = true ∧ isVerticalSpace 13 = true ∧ isVerticalSpace 10 = true ∧
+    skipGap (Comment.text (.line [32, 99] 13) ++ [43, 32, 50]) = [43, 32, 50] :=
+  ⟨by decide, by decide, by decide,
+    layout_gap_skipped [.comment (.line [32, 99] 13)] [43, 32, 50] (by decide) (by decide)⟩
+
+/-- A line comment that nothing closes runs to the end of the input: after any gap, `// body` without a vertical
+space leaves nothing (the parser sees the end of the input where the comment began). -/
+theorem layout_trailing_line_comment (g : Gap) (body : List Nat) (hg : gapOk g = true)
+    (hb : noVertical body = true) : skipGap (gapText g ++ 0x2F :: 0x2F :: body) = [] := by
+  rw [skipGap_gap_any g _ hg, skipGap_open_line body hb]
+
+-- ` /* c */ // trailing`
+example : gapOk [.ws [32], .comment (.block [32, 99, 32]), .ws [32]] = true ∧ noVertical [32, 116] = true := by decide
+
+/-- Sensitivity: a vertical space inside a block comment does not end it, and one inside a line comment does — the
+text after it is a token. -/
+theorem layout_vertical_space_inside_comment (e : Nat) (he : isVerticalSpace e = true) :
+    skipGap ([0x2F, 0x2A, 120, e, 121, 0x2A, 0x2F] ++ [97]) = [97] ∧
+    skipGap ([0x2F, 0x2F, 120, e, 121] ++ [97]) = [121, 97] := by
+  constructor
+  · have h := skipGap_comment (.block [120, e, 121]) [97] (by simp [Comment.ok, noClose])
+    rw [skipGap_token [97] (by decide)] at h
+    simpa [Comment.text] using h
+  · have h := skipGap_comment (.line [120] e) [121, 97] (by
+      have : noVertical [120] = true := by decide
+      simp [Comment.ok, this, he])
+    rw [skipGap_token [121, 97] (by decide)] at h
+    simpa [Comment.text] using h
 
 /-! ## String escapes -/
 
